@@ -37,3 +37,41 @@ Example C07_h265_example :
   | _, _, _ => []
   end = [DErr; DErr; DMore; DMore; DFrame [[64; 1]; [66; 1; 2; 2; 2]]; DFrame [[2; 1; 9]]].
 Proof. vm_compute. reflexivity. Qed.
+
+(* ---- the translated kernels (tools/go2coq, regenerated from the Go source on every run) ----
+   The resynchronisation tests of decodeNALUs - the NALU type field (b0 >> 1) & 63, the FU start and end bits and the
+   three tests on them (start == 1, end != 0, end != 1), the FU type b2 & 63 and the reconstructed 16-bit NALU header,
+   the expected next sequence number (pkt.SequenceNumber + 1 and ++, both uint16), the continuity test
+   pkt.SequenceNumber != d.fragmentNextSeqNum, the "no fragment pending" test d.fragmentsSize == 0 - ARE the
+   expressions Model.decode_nalus is written with. *)
+From Coq Require Import ZArith.
+From GVG Require Import Kern.
+From GV_h265 Require Import BridgeLib Bridge.
+Open Scope Z_scope.
+
+Theorem C07_h265_kernels_are_the_code : forall (b0 b1 b2 st en seq next fs : N),
+  byte b0 -> byte b1 -> byte b2 -> u16 seq -> u16 next ->
+  k_h265_dec_typ (Z.of_N b0) = Z.of_N (N.land (N.shiftr b0 1) 63) /\
+  k_h265_dec_start (Z.of_N b2) = Z.of_N (N.shiftr b2 7) /\
+  k_h265_dec_end (Z.of_N b2) = Z.of_N (N.land (N.shiftr b2 6) 1) /\
+  k_h265_dec_ftyp (Z.of_N b2) = Z.of_N (N.land b2 63) /\
+  k_h265_dec_isstart (Z.of_N st) = (st =? 1)%N /\
+  k_h265_dec_startend (Z.of_N en) = negb (en =? 0)%N /\
+  k_h265_dec_notend (Z.of_N en) = negb (en =? 1)%N /\
+  k_h265_dec_head (Z.of_N b0) (k_h265_dec_ftyp (Z.of_N b2)) (Z.of_N b1)
+    = Z.of_N (N.lor (N.lor (N.shiftl (N.land b0 129) 8) (N.shiftl (N.land b2 63) 9)) b1) /\
+  k_h265_dec_nextseq (Z.of_N seq) = Z.of_N (seq_next seq) /\
+  k_h265_dec_incseq (Z.of_N next) = Z.of_N (seq_next next) /\
+  k_h265_dec_gap (Z.of_N seq) (Z.of_N next) = negb (seq =? next)%N /\
+  k_h265_dec_nostart (Z.of_N fs) = (fs =? 0)%N.
+Proof. exact resync_kernels_are_the_code. Qed.
+Print Assumptions C07_h265_kernels_are_the_code.
+
+Example C07_h265_example_kernels :
+  k_h265_dec_typ 98 = 49 /\ k_h265_dec_typ 96 = 48 /\ k_h265_dec_start 147 = 1 /\ k_h265_dec_end 83 = 1 /\
+  k_h265_dec_end 147 = 0 /\ k_h265_dec_ftyp 147 = 19 /\ k_h265_dec_head 98 19 1 = 38 * 256 + 1 /\
+  k_h265_dec_isstart 1 = true /\ k_h265_dec_isstart 0 = false /\ k_h265_dec_startend 1 = true /\
+  k_h265_dec_notend 1 = false /\ k_h265_dec_notend 0 = true /\
+  k_h265_dec_nextseq 65535 = 0 /\ k_h265_dec_incseq 7 = 8 /\ k_h265_dec_gap 8 8 = false /\ k_h265_dec_gap 9 8 = true /\
+  k_h265_dec_nostart 0 = true /\ k_h265_dec_nostart 1 = false.
+Proof. vm_compute. repeat split. Qed.
